@@ -334,6 +334,17 @@ def c03b(ck, prog):
                 # a size store later in the same block as the write also counts
                 same = any(sb == bi for sb in sblocks) and c is None
                 ok = same or not (after & exits) or any(f.dominates(sb, bi) and sb != bi for sb in sblocks)
+                if ok and what == "`*v = ..`":
+                    # a replacement changes the length both ways: among the `size` updates on the write's path (its own block,
+                    # the blocks that dominate it, the blocks every path from it must pass) there is one that *adds* (the new
+                    # value's length), not only the subtraction of the old one
+                    def _adds(stm):
+                        r = stm["r"]
+                        d = decision.describe_deep(f, r[1], 4) if r[0] == "use" else (r[1] if r[0] == "bin" else "")
+                        return bool(re.match(r"^Add", d)) or (r[0] == "use" and not re.match(r"^Sub", d) and "size" not in d)
+                    on_path = [stm for sb, stm in ss if sb == bi or f.dominates(sb, bi) or sb not in after and sb in f.reachable_from(start)]
+                    if on_path and not any(_adds(stm) for stm in on_path):
+                        ok = False
                 n += 1
                 ck.ob(R, "%s:in-place:%s" % (f.name, what), ok, f.loc(sp),
                       "" if ok else "Headers::%s changes a stored header value in place (%s) on a path that reaches the exit without updating `size`: the serializer reserves `size` bytes and then writes the longer value unchecked"
